@@ -62,6 +62,14 @@ structure Rule where
   items : List RuleItem
   deriving Repr, DecidableEq
 
+/-- one attribute reference of a UNIQUE rule: `attr` or `SELF\\qual.attr` -/
+structure UniqueItem where
+  label : String
+  line : Nat
+  qual : Option String
+  attr : String
+  deriving Repr, DecidableEq
+
 structure Entity where
   name : String
   line : Nat
@@ -69,6 +77,7 @@ structure Entity where
   subs : List String                 -- entity references of the `SUPERTYPE OF` expression, left to right
   attrs : List Attr
   rules : List Rule
+  uniques : List UniqueItem := []
   deriving Repr, DecidableEq
 
 inductive TypeBody
@@ -121,6 +130,9 @@ structure Schema where
   line : Nat
   decls : List Decl
   ifaces : List Iface := []
+  /-- the file the schema was read from when it is not the file given on the command line (found through the current
+      directory / EXPRESS_PATH by `EXPRESSfind_schema` while pass 1 connects an interface clause) -/
+  file : Option String := none
   deriving Repr, DecidableEq
 
 /-- one input file: path and its schemas in text order -/
@@ -165,6 +177,9 @@ structure Obj where
   deriving Repr, DecidableEq
 
 def findSchema (f : File) (n : String) : Option Schema := f.schemas.find? (·.name = n)
+
+/-- the file a schema's symbols carry -/
+def fileOf (f : File) (s : Schema) : String := s.file.getD f.path
 
 /-- `DICTlookup( schema->symbol_table, name )`: the first declaration of that name -/
 def ownObj (s : Schema) (n : String) : Option Obj :=
@@ -246,8 +261,8 @@ def pass1 (f : File) (s : Schema) : List Diag :=
   s.ifaces.flatMap fun i =>
     if (findSchema f i.schema).isSome then []
     else match i.items with
-      | some its => its.map fun _ => mk f.path LibErrors.UNDEFINED_SCHEMA i.line [sArg i.schema]
-      | none => [mk f.path LibErrors.UNDEFINED_SCHEMA i.line [sArg i.schema]]
+      | some its => its.map fun _ => mk (fileOf f s) LibErrors.UNDEFINED_SCHEMA i.line [sArg i.schema]
+      | none => [mk (fileOf f s) LibErrors.UNDEFINED_SCHEMA i.line [sArg i.schema]]
 
 /-- the items of one list that resolve, with the object they resolve to -/
 def resolvedItems (f : File) (fb : Bool) (processed : String → Bool) (items : List (String × Item)) : List (String × Nat × Obj) :=
@@ -260,9 +275,9 @@ def pass2 (f : File) (fb : Bool) (s : Schema) : List Diag :=
   let miss := fun (items : List (String × Item)) => items.filterMap fun (src, it) =>
     match exportOf f fb pr (importFuel f) src it.old with
     | some _ => none
-    | none => some (mk f.path LibErrors.REF_NONEXISTENT it.line [sArg it.old, sArg src])
-  miss (useItems s) ++ aliasDups f.path (resolvedItems f fb pr (useItems s)) [] ++
-  miss (refItems s) ++ aliasDups f.path (resolvedItems f fb pr (refItems s)) []
+    | none => some (mk (fileOf f s) LibErrors.REF_NONEXISTENT it.line [sArg it.old, sArg src])
+  miss (useItems s) ++ aliasDups (fileOf f s) (resolvedItems f fb pr (useItems s)) [] ++
+  miss (refItems s) ++ aliasDups (fileOf f s) (resolvedItems f fb pr (refItems s)) []
 
 /-- `SCOPE_find( S, name, ENTITY|TYPE )` after pass 2: own declaration, fully USE'd schemas (recursively, with
     everything *they* see), `usedict`, fully REFERENCE'd schemas (own declarations only), `refdict` -/
@@ -289,13 +304,24 @@ def visible (f : File) (fb : Bool) : Nat → String → String → Option Obj
 /-- what the names that are not declared in `s` itself denote inside `s` -/
 structure Env where
   foreign : String → Option Kind
+  /-- declared name and line of the foreign object a name denotes (for SUPERTYPE_RESOLVE / SUBTYPE_RESOLVE) -/
+  foreignDecl : String → Option (String × Nat) := fun _ => none
+
+/-- line of the declaration of an object in its home schema -/
+def objLine (f : File) (o : Obj) : Nat :=
+  ((findSchema f o.schema).bind fun s => s.decls.findSome? fun
+      | .entity e => if e.name = o.name then some e.line else none
+      | .type t => if t.name = o.name then some t.line else none
+      | .func fn => if fn.name = o.name then some fn.line else none
+      | .syntaxError .. => none).getD 0
 
 def envOf (f : File) (fb : Bool) (s : Schema) : Env :=
-  ⟨fun n => match ownObj s n with
+  let look := fun n => match ownObj s n with
     | some _ => none
-    | none => (visible f fb (importFuel f) s.name n).map (·.kind)⟩
+    | none => visible f fb (importFuel f) s.name n
+  ⟨fun n => (look n).map (·.kind), fun n => (look n).map fun o => (o.name, objLine f o)⟩
 
-def noEnv : Env := ⟨fun _ => none⟩
+def noEnv : Env := ⟨fun _ => none, fun _ => none⟩
 
 /-- `SCOPEfind( …, SCOPE_FIND_ENTITY )` succeeds -/
 def isEnt (env : Env) (s : Schema) (n : String) : Bool := isEntity s n || env.foreign n = some .entity
@@ -357,7 +383,12 @@ def parseSchemas (path : String) : List Schema → List Diag
     let r := parseDeclsFrom path s.decls []
     if r.2 then r.1 else r.1 ++ parseSchemas path ss
 
-def parseDiags (f : File) : List Diag := parseSchemas f.path f.schemas
+def parseDiags (f : File) : List Diag := parseSchemas f.path (f.schemas.filter (·.file.isNone))
+
+/-- parse-time diagnostics of the schema files pulled in by interface clauses (reported while pass 1 runs, under their
+    own file name) -/
+def externalParseDiags (f : File) : List Diag :=
+  (f.schemas.filter (·.file.isSome)).flatMap fun s => (parseDeclsFrom (fileOf f s) s.decls []).1
 
 /-! ## the cycle search shared by `ENTITY_check_subsuper_cyclicity` and `TYPE_check_select_cyclicity` -/
 
@@ -430,13 +461,27 @@ def typeRefDiags (path : String) (env : Env) (s : Schema) : TypeRef → List Dia
       | some _ => []
       | none => [mk path LibErrors.UNDEFINED_TYPE l [sArg n]]
 
+/-- the arguments `ENTITYresolve_subtype_expression` passes with SUBTYPE_RESOLVE ("Subtype %s resolves to non-entity %s on
+    line %d."): all three, or — regenerated `subtypeResolvePassesName = false` — only the name and the line, so that the second
+    `%s` consumes the line number as a pointer -/
+def subtypeResolveArgs (n dn : String) (dl : Nat) : List Arg :=
+  if ResolveGen.subtypeResolvePassesName then [sArg n, sArg dn, .int dl] else [sArg n, .int dl]
+
 def pass3 (path : String) (env : Env) (s : Schema) : List Diag :=
   s.decls.flatMap fun
     | .entity e =>
+      -- a name imported through an interface clause is found whatever its kind (`SCOPE_find` filters own declarations
+      -- only): a non-entity gives SUPERTYPE_RESOLVE / SUBTYPE_RESOLVE instead of "unknown"
       (e.supers.filterMap fun (n, l) =>
-        if isEnt env s n then none else some (mk path LibErrors.UNKNOWN_SUPERTYPE l [sArg n, sArg e.name])) ++
+        if isEnt env s n then none
+        else match env.foreignDecl n with
+          | some (_, dl) => some (mk path LibErrors.SUPERTYPE_RESOLVE l [sArg n, .int dl])
+          | none => some (mk path LibErrors.UNKNOWN_SUPERTYPE l [sArg n, sArg e.name])) ++
       (e.subs.filterMap fun n =>
-        if isEnt env s n then none else some (mk path LibErrors.UNKNOWN_SUBTYPE e.line [sArg n, sArg e.name]))
+        if isEnt env s n then none
+        else match env.foreignDecl n with
+          | some (dn, dl) => some (mk path LibErrors.SUBTYPE_RESOLVE e.line (subtypeResolveArgs n dn dl))
+          | none => some (mk path LibErrors.UNKNOWN_SUBTYPE e.line [sArg n, sArg e.name]))
     | .type t =>
       (match t.body with
        | .ref r =>
@@ -474,30 +519,6 @@ def inverseDiags (path : String) (s : Schema) (a : Attr) : List Diag :=
        | none => if (findType s n).isSome then [mk path LibErrors.INVERSE_BAD_ENTITY a.line [sArg attrName]] else [])
     | _ => [mk path LibErrors.INVERSE_BAD_ENTITY a.line [sArg attrName]]
 
-def pass4 (path : String) (env : Env) (s : Schema) : List Diag :=
-  let fuel := s.decls.length + 1
-  s.decls.flatMap fun
-    | .type t =>
-      (match t.body with
-       | .select _ =>
-         cycleDiags path LibErrors.SELECT_LOOP LibErrors.SELECT_CONTINUATION (lineOfType s) t.name
-           (dfs ResolveGen.visitedReturnsSelect t.name (selectGraph s) fuel (selectGraph s t.name) [])
-       | _ => [])
-    | .entity e =>
-      -- ENTITYcheck_missing_supertypes
-      ((subtypesOf s e).filterMap fun sub =>
-        match findEntity s sub with
-        | some se => if e.name ∈ supersOf s se then none
-                     else some (mk path LibErrors.MISSING_SUPERTYPE se.line [sArg e.name, sArg se.name])
-        | none => none) ++
-      -- ENTITYresolve_types
-      (e.attrs.flatMap fun a => typeRefDiags path env s a.ty ++
-        (if (typeRefDiags path env s a.ty).isEmpty then inverseDiags path s a else [])) ++
-      -- ENTITYcheck_subsuper_cyclicity
-      cycleDiags path LibErrors.SUBSUPER_LOOP LibErrors.SUBSUPER_CONTINUATION (lineOfEntity s) e.name
-        (dfs ResolveGen.visitedReturnsSubsuper e.name (subGraph s) fuel (subGraph s e.name) [])
-    | _ => []
-
 /-- `ENTITYget_named_attribute( entity, name )`: own attributes, then the supertypes, depth-first.
     `none` = the C recursion does not terminate within `fuel` levels (cyclic supertypes, name absent) -/
 def namedAttr (s : Schema) (name : String) : Nat → String → Option Bool
@@ -520,6 +541,57 @@ def isAncestor (s : Schema) (name : String) : Nat → String → Bool
     match findEntity s en with
     | none => false
     | some e => (supersOf s e).any fun sup => sup = name || isAncestor s name fuel sup
+
+/-- `ENTITYresolve_uniques` for one attribute reference of a UNIQUE rule -/
+def uniqueDiags (path : String) (s : Schema) (e : Entity) (fuel : Nat) (u : UniqueItem) : List Diag :=
+  let unqualified :=
+    match namedAttr s u.attr fuel e.name with
+    | some true => []
+    | _ => [mk path LibErrors.UNKNOWN_ATTR_IN_ENTITY u.line [sArg u.attr, sArg e.name]]
+  -- `attr2 && attr != attr2 && ENTITYdeclares_variable( e, attr2 )`: the unqualified look-up ends at an attribute that
+  -- `e` itself declares, which is never the one (if any) the qualified look-up found in the supertype
+  let needless :=
+    if e.attrs.any (·.name = u.attr) then [mk path LibErrors.UNIQUE_QUAL_REDECL u.line [sArg u.attr, sArg e.name]] else []
+  match u.qual with
+  | none => unqualified
+  | some q =>
+    if !isAncestor s q fuel e.name then
+      -- EXPresolve of the group reference, then ENTITYresolve_attr_ref( e, grp, attr ), then the unqualified look-up
+      [mk path LibErrors.GROUP_REF_NO_SUCH_ENTITY u.line [sArg q],
+       mk path LibErrors.UNKNOWN_SUPERTYPE u.line [sArg q, sArg e.name]] ++ unqualified ++ needless
+    else
+      match findEntity s q with
+      | none => unqualified
+      | some qe =>
+        if qe.attrs.any (·.name = u.attr) then needless ++ unqualified
+        else
+          [mk path LibErrors.UNKNOWN_ATTR_IN_ENTITY u.line [sArg u.attr, sArg q],
+           mk path LibErrors.UNKNOWN_ATTR_IN_ENTITY u.line [sArg u.attr, sArg q]] ++ unqualified ++ needless
+
+def pass4 (path : String) (env : Env) (s : Schema) : List Diag :=
+  let fuel := s.decls.length + 1
+  s.decls.flatMap fun
+    | .type t =>
+      (match t.body with
+       | .select _ =>
+         cycleDiags path LibErrors.SELECT_LOOP LibErrors.SELECT_CONTINUATION (lineOfType s) t.name
+           (dfs ResolveGen.visitedReturnsSelect t.name (selectGraph s) fuel (selectGraph s t.name) [])
+       | _ => [])
+    | .entity e =>
+      -- ENTITYcheck_missing_supertypes
+      ((subtypesOf s e).filterMap fun sub =>
+        match findEntity s sub with
+        | some se => if e.name ∈ supersOf s se then none
+                     else some (mk path LibErrors.MISSING_SUPERTYPE se.line [sArg e.name, sArg se.name])
+        | none => none) ++
+      -- ENTITYresolve_types
+      (e.attrs.flatMap fun a => typeRefDiags path env s a.ty ++
+        (if (typeRefDiags path env s a.ty).isEmpty then inverseDiags path s a else [])) ++
+      (e.uniques.flatMap (uniqueDiags path s e fuel)) ++
+      -- ENTITYcheck_subsuper_cyclicity
+      cycleDiags path LibErrors.SUBSUPER_LOOP LibErrors.SUBSUPER_CONTINUATION (lineOfEntity s) e.name
+        (dfs ResolveGen.visitedReturnsSubsuper e.name (subGraph s) fuel (subGraph s e.name) [])
+    | _ => []
 
 def pass5 (path : String) (s : Schema) : Pass :=
   let fuel := s.decls.length + 1
@@ -568,18 +640,28 @@ def nullUseCrash (f : File) : Bool :=
     | some t => (ownObj t it.old).isNone && (fullUses t).any fun U => (findSchema f U).isNone
     | none => false
 
-/-- the schemas the later passes look at -/
-def liveSchemas (f : File) : List Schema := f.schemas.filter (resolvable f)
+/-- an attribute whose `DICTdefine` failed (duplicate name) never enters the entity's attribute list -/
+def dedupAttrs : List Attr → List String → List Attr
+  | [], _ => []
+  | a :: as, seen => if a.name ∈ seen then dedupAttrs as seen else a :: dedupAttrs as (a.name :: seen)
+
+def normSchema (s : Schema) : Schema :=
+  { s with decls := s.decls.map fun
+      | .entity e => .entity { e with attrs := dedupAttrs e.attrs [] }
+      | d => d }
+
+/-- the schemas the later passes look at (as the parser left them) -/
+def liveSchemas (f : File) : List Schema := (f.schemas.filter (resolvable f)).map normSchema
 
 /-- all five passes over the whole file (each pass runs over every live schema before the next one starts; no pass is
     gated on errors of an earlier one) -/
 def resolveDiags (f : File) : Pass :=
   let fb := ResolveGen.renameUselistFallback
   let live := liveSchemas f
-  let p5 := live.map fun s => pass5 f.path s
-  { diags := f.schemas.flatMap (pass1 f) ++ live.flatMap (pass2 f fb) ++
-             live.flatMap (fun s => pass3 f.path (envOf f fb s) s) ++
-             live.flatMap (fun s => pass4 f.path (envOf f fb s) s) ++ p5.flatMap (·.diags),
+  let p5 := live.map fun s => pass5 (fileOf f s) s
+  { diags := externalParseDiags f ++ f.schemas.flatMap (pass1 f) ++ live.flatMap (pass2 f fb) ++
+             live.flatMap (fun s => pass3 (fileOf f s) (envOf f fb s) s) ++
+             live.flatMap (fun s => pass4 (fileOf f s) (envOf f fb s) s) ++ p5.flatMap (·.diags),
     diverges := p5.any (·.diverges) || nullUseCrash f }
 
 /-! ## the verdict -/
